@@ -43,3 +43,5 @@ import Pms.Props.C07Dyn
 #print axioms Pms.Sym.C07_translation_dyn
 #print axioms Pms.Sym.C07_image_dyn
 #print axioms Pms.Sym.C07_relabel_dyn
+#print axioms Pms.Sym.C07_relabel_boo
+#print axioms Pms.Sym.C07_relabel_psi2d
